@@ -3015,8 +3015,9 @@ impl Interpreter {
 
             match vm.run(self) {
                 VmResult::Complete(guarded) => {
-                    // Generator completed normally
+                    // Generator completed normally (a return from inside blocks leaves them open)
                     gen_state.borrow_mut().status = GeneratorStatus::Completed;
+                    vm.close_open_scopes(self);
                     self.env = saved_env;
                     Ok(builtins::create_generator_result(self, guarded.value, true))
                 }
@@ -3079,6 +3080,7 @@ impl Interpreter {
                 }
                 VmResult::Error(e) => {
                     gen_state.borrow_mut().status = GeneratorStatus::Completed;
+                    vm.close_open_scopes(self);
                     self.env = saved_env;
                     Err(e)
                 }
@@ -3161,6 +3163,7 @@ impl Interpreter {
             match vm.run(self) {
                 VmResult::Complete(guarded) => {
                     gen_state.borrow_mut().status = GeneratorStatus::Completed;
+                    vm.close_open_scopes(self);
                     self.env = saved_env;
                     Ok(builtins::create_generator_result(self, guarded.value, true))
                 }
@@ -3220,6 +3223,7 @@ impl Interpreter {
                 }
                 VmResult::Error(e) => {
                     gen_state.borrow_mut().status = GeneratorStatus::Completed;
+                    vm.close_open_scopes(self);
                     self.env = saved_env;
                     Err(e)
                 }
